@@ -638,6 +638,10 @@ class Env:
             if isinstance(op, ast.BitOr):
                 return Mask(sp.Or(a.cond, b.cond))
         if isinstance(op, ast.Add) and isinstance(a, (list, tuple, str)) and isinstance(b, type(a)):
+            if not isinstance(a, str) and len(a) == len(b) and len(a) > 0 and all(_is_expr(x) for x in a) and all(_is_expr(x) for x in b) \
+                    and isinstance(node, ast.BinOp) and not isinstance(node.left, (ast.List, ast.Tuple)) and not isinstance(node.right, (ast.List, ast.Tuple)):
+                # two equally long numeric sequences that are not list displays: arrays, added element by element
+                return tuple(self.binop(op, x, y, node) for x, y in zip(a, b))
             return a + b
         if isinstance(op, ast.Mult) and isinstance(a, (list,)) and isinstance(b, (int, sp.Integer)):
             return a * int(b)
